@@ -32,11 +32,20 @@ Definition set_ann (a : ann) (t : atree) : atree :=
 Definition set_target (v : bool) (t : atree) : atree := set_ann (clip_layers t, v) t.
 Definition set_clips (l : list Z) (t : atree) : atree := set_ann (l, has_target t) t.
 
-(* Group.blend_mode (layers.py:1000-1004) / Layer.blend_mode: how "pass-through" is read off the
-   records: a group with a SECTION_DIVIDER_SETTING block answers with that block's blend mode
-   (None when the block carries none - never equal to PASS_THROUGH), otherwise with the record's. *)
-Definition pt_of (is_group : bool) (setting : option (option bool)) (record_pt : bool) : bool :=
-  if is_group then match setting with Some (Some b) => b | Some None => false | None => record_pt end
+(* Group.blend_mode / Group._setting (api/layers.py) and Layer.blend_mode: how "pass-through" is read off the
+   records.  A group answers with the blend mode of its divider block - since /repo bd29823 the block PSDImage._init
+   uses: NESTED_SECTION_DIVIDER_SETTING when present, else SECTION_DIVIDER_SETTING - (None when that block carries
+   no blend mode: never equal to PASS_THROUGH), and with the record's blend mode when it has neither block.
+   A block is described as  None = absent, Some None = present without blend mode, Some (Some b) = present,
+   b = "its blend mode is PASS_THROUGH". *)
+Definition eff_setting (nested section : option (option bool)) : option (option bool) :=
+  match nested with Some s => Some s | None => section end.
+Definition pt_of (is_group : bool) (nested section : option (option bool)) (record_pt : bool) : bool :=
+  if is_group then match eff_setting nested section with Some (Some b) => b | Some None => false | None => record_pt end
+  else record_pt.
+(* before bd29823 Group._setting looked at SECTION_DIVIDER_SETTING only (kept as documentation) *)
+Definition pt_of_legacy (is_group : bool) (section : option (option bool)) (record_pt : bool) : bool :=
+  if is_group then match section with Some (Some b) => b | Some None => false | None => record_pt end
   else record_pt.
 
 (* _clear_clipping_layers: every layer of the tree gets ([], True) *)
